@@ -4,7 +4,11 @@ import json, re
 from . import common as C, gref, corpus as K, explore as X
 from .props import c01
 
-CHAR_SIGMA = ['a', '1', '_', '.', '(', ')', '[', ']', '{', '}', ':', '=', '!', "'", '"', '\\', '#', ' ', '\t', '\n', '\r', 'é']
+CHAR_SIGMA = ['a', '1', '_', '.', '(', ')', '[', ']', '{', '}', ':', '=', '!', "'", '"', '\\', '#', ' ', '\t', '\n', '\r', 'é', '\ufeff']
+
+# layout-sensitive lexemes: indentation pieces, both continuation forms, every line break, comment, form feed, block opener, brackets, an
+# unterminated triple quote and the BOM: the strings over them drive the indentation / line-joining / bracket-depth logic of the lexer
+LAYOUT_LEX = [' ', '  ', '\t', '\\\n', '\\\r\n', '\n', '\r', 'a', ':', '#c', '\x0c', 'if a:', '(', ')', "'''", '\ufeff']
 
 
 def norm_relation(rel):
